@@ -52,7 +52,8 @@ Definition inst_head_end (b : bytes) (t : tail) : option eclass :=
 Definition inst_body_end (maxb : Z) (q : req_sum) (b : bytes) (t : tail) : option eclass :=
   match t, reqReadBody trailer_reject (q_cl q) maxb b with
   | Eof, BErr EEOF _ _ => None
-  | _, _ => Some EcOther
+  | Eof, _ => Some EcOther          (* io.ErrUnexpectedEOF *)
+  | Open, _ => Some EcTimeout       (* the body readers return the net error unwrapped: defaultErrorHandler sees the timeout *)
   end.
 
 Definition inst_framer (hc : hcfg) (bsize : N) (maxb : Z) : framer :=
